@@ -93,7 +93,7 @@ def main():
      "hooks":{"guard":"verif","enable":"go build -tags verif -overlay <generated by mc/overlay from the current /repo sources> (no hook is committed to /repo; see DESIGN.md section 7)",
        "baseline_off_cmd":"cd /repo && GOFLAGS=-mod=mod go test -vet=off -count=1 ./...","source_commits":[],"add_only":True},
      "engines":[{"name":"vcheck","path":"mc/cmd/vcheck","serves_properties":sorted(x for x in CLAIMS if x not in ("C09","C14","C15","C16")),"kind_free_text":"bounded-exhaustive enumeration of inputs/programs/histories on the real code (plain build) against a Go reference model; explicit-state search; workers sharded over 16 processes"},
-       {"name":"vcheck-inst","path":"mc/cmd/vcheck (built with -tags verif -overlay from mc/cmd/mkoverlay)","serves_properties":sorted(x for x in CLAIMS if x in ("C09","C14","C15","C16")),"kind_free_text":"same binary built with a generated overlay: controlled map iteration in the loader, sync.Pool shim with harness-chosen answers and scheduling points, pool accessors; cooperative scheduler / DFS explorer"}],
+       {"name":"vcheck-inst","path":"mc/cmd/vcheck (built with -tags verif -overlay from mc/cmd/mkoverlay)","serves_properties":sorted(x for x in CLAIMS if x in ("C09","C14","C15","C16")),"kind_free_text":"same binary built with a generated overlay: controlled map iteration in the loader, sync.Pool shim with harness-chosen answers and scheduling points, sync/atomic shim, time.AfterFunc seam, pool accessors; cooperative scheduler / DFS explorer"}],
      "checks":[],
      "not_applicable":[]
     }
